@@ -97,6 +97,21 @@ def getField (v : Val) (k : String) : Val :=
 
 end Val
 
+-- JSON values: no expression reference anywhere inside
+mutual
+def Val.isJson : Val → Bool
+  | .arr xs => valsJson xs
+  | .obj kvs => kvsJson kvs
+  | .expref _ => false
+  | _ => true
+def valsJson : List Val → Bool
+  | [] => true
+  | v :: vs => v.isJson && valsJson vs
+def kvsJson : List (String × Val) → Bool
+  | [] => true
+  | (_, v) :: r => v.isJson && kvsJson r
+end
+
 /-- `BTreeMap::insert`: keep the list sorted by key, replace an existing binding. -/
 def insertKV {β : Type} (k : String) (v : β) : List (String × β) → List (String × β)
   | [] => [(k, v)]
